@@ -366,3 +366,129 @@ func (x *Ex) hazardSites() []string {
 	})
 	return out
 }
+
+var domMutators = map[string]int{ // function name → index of the argument that is mutated
+	"SetAttribute": 0, "RemoveAttribute": 0, "AppendChild": 0, "PrependChild": 0, "DetachChild": 0, "ReplaceChild": 0,
+	"SetInnerHTML": 0, "SetTextContent": 0, "RemoveNodes": 0, "ReplaceNode": 0,
+}
+
+// mutationSites: every place where a *html.Node, *url.URL or *Options reachable from a caller
+// could be written: calls of the dom package's mutators, html.Node's mutating methods, and
+// assignments to fields of such values.
+func (x *Ex) mutationSites() []string {
+	var out []string
+	isKind := func(t types.Type) string {
+		s := t.String()
+		switch {
+		case strings.HasSuffix(s, "golang.org/x/net/html.Node"):
+			return "node"
+		case strings.HasSuffix(s, "net/url.URL"):
+			return "url"
+		case strings.HasSuffix(s, "go-domdistiller.Options"):
+			return "options"
+		}
+		return ""
+	}
+	x.forEachFunc(func(rel string, fd *ast.FuncDecl, info *types.Info) {
+		fname := funcName(rel, fd)
+		// local provenance: how the root identifier of a target was introduced in this function
+		origin := map[string]string{}
+		if fd.Recv != nil {
+			for _, f := range fd.Recv.List {
+				for _, n := range f.Names {
+					origin[n.Name] = "receiver"
+				}
+			}
+		}
+		for _, f := range fd.Type.Params.List {
+			for _, n := range f.Names {
+				origin[n.Name] = "param"
+			}
+		}
+		ast.Inspect(fd.Body, func(n ast.Node) bool {
+			switch v := n.(type) {
+			case *ast.AssignStmt:
+				if v.Tok == token.DEFINE {
+					for i, l := range v.Lhs {
+						if id, ok := l.(*ast.Ident); ok && id.Name != "_" {
+							r := v.Rhs[0]
+							if len(v.Rhs) == len(v.Lhs) {
+								r = v.Rhs[i]
+							}
+							if _, seen := origin[id.Name]; !seen {
+								origin[id.Name] = ":= " + trunc80(collapse(x.src(r)))
+							}
+						}
+					}
+				}
+			case *ast.RangeStmt:
+				for _, l := range []ast.Expr{v.Key, v.Value} {
+					if id, ok := l.(*ast.Ident); ok && id.Name != "_" {
+						origin[id.Name] = "range " + trunc80(collapse(x.src(v.X)))
+					}
+				}
+			case *ast.FuncLit:
+				for _, f := range v.Type.Params.List {
+					for _, n := range f.Names {
+						if _, seen := origin[n.Name]; !seen {
+							origin[n.Name] = "closure-param"
+						}
+					}
+				}
+			}
+			return true
+		})
+		prov := func(e ast.Expr) string {
+			t := collapse(x.src(e))
+			if id := rootIdent(e); id != nil {
+				if o, ok := origin[id.Name]; ok {
+					return t + "  [" + id.Name + " " + o + "]"
+				}
+			}
+			return t
+		}
+		ast.Inspect(fd.Body, func(n ast.Node) bool {
+			switch v := n.(type) {
+			case *ast.CallExpr:
+				sel, ok := v.Fun.(*ast.SelectorExpr)
+				if !ok {
+					return true
+				}
+				if id, ok := sel.X.(*ast.Ident); ok && id.Name == "dom" {
+					if idx, ok := domMutators[sel.Sel.Name]; ok && len(v.Args) > idx {
+						out = append(out, fname+" | dom."+sel.Sel.Name+" | "+prov(v.Args[idx]))
+					}
+					return true
+				}
+				switch sel.Sel.Name {
+				case "AppendChild", "InsertBefore", "RemoveChild":
+					if tv, ok := info.Types[sel.X]; ok && isKind(tv.Type) == "node" {
+						out = append(out, fname+" | node."+sel.Sel.Name+" | "+prov(sel.X))
+					}
+				}
+			case *ast.AssignStmt:
+				if v.Tok == token.DEFINE {
+					return true
+				}
+				for _, l := range v.Lhs {
+					if sel, ok := l.(*ast.SelectorExpr); ok {
+						if tv, ok := info.Types[sel.X]; ok {
+							if k := isKind(tv.Type); k != "" {
+								out = append(out, fname+" | "+k+"-field "+sel.Sel.Name+" | "+prov(sel.X))
+							}
+						}
+					}
+				}
+			}
+			return true
+		})
+	})
+	return out
+}
+
+func trunc80(s string) string {
+	if len(s) > 80 {
+		return s[:80] + "…"
+	}
+	return s
+}
